@@ -266,7 +266,8 @@ func runC06(c *Ctx) {
 		c.Count("first." + label)
 		w.line(c, "send a "+hx([]byte(first)))
 		inject()
-		for k := 0; k < r.Intn(3) && label != "valid" && label != "extrafields"; k++ {
+		// "nouserfield" authenticates too: the handshake reads the operator from Head.User
+		for k := 0; k < r.Intn(3) && label != "valid" && label != "extrafields" && label != "nouserfield"; k++ {
 			// only connections that did NOT log in: what an operator may send is not C06's subject
 			c.Count("followup")
 			w.line(c, "send a "+hx([]byte(gen.Pick(r, followUps))))
